@@ -1113,6 +1113,7 @@ def c04(tier, rng, fam='C04'):
                 b.step('sopen', c=1, kind=kind, md=req, hp=hp)
                 b.step('send', c=1, pay='x').step('close', c=1).step('hdr', c=1).step('recv', c=1, n=2).step('trl', c=1)
             out.append(b.q().done())
+    out += concurrent_header_and_send(fam, 10 if tier == 'quick' else 200)
     return out
 
 
@@ -1579,4 +1580,27 @@ def random_programs(fam, count, rng, maxcalls=4):
             if rng.random() < 0.12:
                 b.q()
         out.append(b.q().done())
+    return out
+
+
+def concurrent_header_and_send(fam, reps):
+    """a handler that calls SendHeader from one goroutine and Send from another (permitted): whichever the stream
+    serves first, headers a successful SendHeader reports are on the first envelope and reach the caller's Header();
+    an observer that takes its time over the headers widens whatever window there is"""
+    out = []
+    for rep in range(reps):
+        for kind in ('bidi', 'ss'):
+            for pre in (0, 1):
+                b = B(fam, '%s: SendHeader and Send from two goroutines (set first: %d) #%d' % (kind, pre, rep), ser=bool(rep % 2), sstats=1 + rep % 2)
+                hp = [dict(o='recv')]
+                if pre:
+                    hp.append(dict(o='sethdr', md=[['pre', 'p']]))
+                hp += [dict(o='parhdr', md=[['hk', 'hv'], ['b-bin', '\x00\xff']], pay='first', n=rep % 2), dict(o='send', pay='second'), dict(o='drain'), ret()]
+                b.step('sopen', c=1, kind=kind, hp=hp)
+                b.step('send', c=1, pay='go')
+                b.step('hdr', c=1)
+                b.step('recv', c=1, n=2)
+                b.step('close', c=1)
+                b.step('recv', c=1)
+                out.append(b.q().done())
     return out
